@@ -19,6 +19,7 @@ import (
 	"verif/harness/internal/run"
 	"verif/harness/internal/sched"
 
+	"github.com/buildbuildio/pebbles/gqlerrors"
 	"github.com/buildbuildio/pebbles/queryer"
 	"github.com/buildbuildio/pebbles/requests"
 )
@@ -61,6 +62,28 @@ func (c11) Assumptions() []string {
 }
 
 var c11Kinds = []string{"transport-error", "status-500", "element-errors", "short-array", "long-array", "context-cancelled", "transport-eof", "status-503-valid-body"}
+
+// c11Benign are answers a spec-abiding service may give instead of the plain 200 {"data": ...}: an empty errors
+// list next to the data, a 2xx status other than 200.  They are applied to every call and are no failures.
+var c11Benign = []string{"benign:empty-errors-list", "benign:status-207"}
+
+func c11IsBenign(k string) bool { return strings.HasPrefix(k, "benign:") }
+
+type c11Body struct {
+	*bytes.Reader
+	size            int
+	status          int
+	drained, closed int32
+}
+
+func (b *c11Body) Read(p []byte) (int, error) {
+	n, err := b.Reader.Read(p)
+	if err != nil {
+		atomic.StoreInt32(&b.drained, 1)
+	}
+	return n, err
+}
+func (b *c11Body) Close() error { atomic.StoreInt32(&b.closed, 1); return nil }
 
 type c11Combo struct {
 	n, m, order, failAt int
@@ -122,6 +145,16 @@ func c11List(tier string) []c11Combo {
 			}
 			if n > 0 {
 				out = append(out, c11Combo{n, m, 0, -1, "", true}, c11Combo{n, m, 1, -1, "", true})
+				// answers worded differently but meaning the same: nothing may change
+				for _, k := range c11Benign {
+					out = append(out, c11Combo{n, m, 0, 0, k, false})
+				}
+			}
+			// every chunk call fails (a service that is down), under two completion orders
+			if c > 1 {
+				for _, k := range []string{"all:transport-error", "all:status-500", "all:element-errors"} {
+					out = append(out, c11Combo{n, m, 0, 0, k, false}, c11Combo{n, m, 1, 0, k, false})
+				}
 			}
 		}
 	}
@@ -172,6 +205,8 @@ type c11RT struct {
 	gated   bool
 	failTok int // the call containing this token fails (-1 none)
 	kind    string
+	failed  int // calls answered with a failure
+	bodies  []*c11Body
 }
 
 func (rt *c11RT) RoundTrip(req *http.Request) (*http.Response, error) {
@@ -239,15 +274,40 @@ func (rt *c11RT) RoundTrip(req *http.Request) (*http.Response, error) {
 			fail = true
 		}
 	}
+	kind := rt.kind
+	if strings.HasPrefix(kind, "all:") {
+		fail, kind = true, strings.TrimPrefix(kind, "all:")
+	}
+	if c11IsBenign(kind) {
+		fail = false
+	}
+	if fail {
+		rt.mu.Lock()
+		rt.failed++
+		rt.mu.Unlock()
+	}
 	mk := func(status int, b []byte) *http.Response {
-		return &http.Response{StatusCode: status, Status: fmt.Sprint(status), Proto: "HTTP/1.1", ProtoMajor: 1, ProtoMinor: 1, Header: http.Header{"Content-Type": {"application/json"}}, Body: io.NopCloser(bytes.NewReader(b)), Request: req}
+		tb := &c11Body{Reader: bytes.NewReader(b), size: len(b), status: status}
+		rt.mu.Lock()
+		rt.bodies = append(rt.bodies, tb)
+		rt.mu.Unlock()
+		return &http.Response{StatusCode: status, Status: fmt.Sprint(status), Proto: "HTTP/1.1", ProtoMajor: 1, ProtoMinor: 1, Header: http.Header{"Content-Type": {"application/json"}}, Body: tb, Request: req}
 	}
 	var els []map[string]any
 	for _, t := range call.tokens {
 		els = append(els, map[string]any{"data": map[string]any{"echo": fmt.Sprintf("tok-%d", t)}})
 	}
+	okStatus := 200
+	switch kind {
+	case "benign:empty-errors-list":
+		for _, e := range els {
+			e["errors"] = []any{}
+		}
+	case "benign:status-207":
+		okStatus = 207
+	}
 	if fail {
-		switch rt.kind {
+		switch kind {
 		case "transport-error":
 			return nil, errors.New("c11 transport: injected failure")
 		case "status-500":
@@ -275,7 +335,7 @@ func (rt *c11RT) RoundTrip(req *http.Request) (*http.Response, error) {
 	} else {
 		out, _ = json.Marshal(els[0])
 	}
-	return mk(200, out), nil
+	return mk(okStatus, out), nil
 }
 
 type memFile struct{ *strings.Reader }
@@ -449,7 +509,18 @@ func (p c11) Exec(c *run.Ctx, idx int, raw json.RawMessage) []run.Result {
 			seen[t]++
 		}
 	}
-	if sp.FailAt >= 0 {
+	// an answer body that is neither read to its end nor closed keeps its connection out of the pool for good
+	rt.mu.Lock()
+	for _, b := range rt.bodies {
+		if b.size > 0 && atomic.LoadInt32(&b.drained) == 0 && atomic.LoadInt32(&b.closed) == 0 {
+			rt.mu.Unlock()
+			return fail("answer-body-neither-read-nor-closed", fmt.Sprintf("the %d byte body of a status %d answer was dropped unread and unclosed", b.size, b.status))
+		}
+	}
+	res.Counters["answer_bodies_tracked"] = len(rt.bodies)
+	nFailed := rt.failed
+	rt.mu.Unlock()
+	if sp.FailAt >= 0 && !c11IsBenign(sp.FailKind) {
 		if o.err == nil {
 			return fail("failed-call-not-reported", fmt.Sprintf("Query returned no error; result has %d entries", len(o.res)))
 		}
@@ -459,6 +530,13 @@ func (p c11) Exec(c *run.Ctx, idx int, raw json.RawMessage) []run.Result {
 		for t, n := range seen {
 			if n > 1 {
 				return fail("request-sent-more-than-once", fmt.Sprintf("token %d in %d calls", t, n))
+			}
+		}
+		// every failed call yields one error and a call that did not fail yields none, whatever the completion order
+		if el, ok := o.err.(gqlerrors.ErrorList); ok && sp.FailKind != "context-cancelled" && nFailed > 0 {
+			res.Counters["error_lists_counted"] = 1
+			if len(el) != nFailed {
+				return fail("errors-do-not-match-failed-calls", fmt.Sprintf("%d calls failed, Query reports %d errors: %v", nFailed, len(el), o.err))
 			}
 		}
 		return []run.Result{res}
